@@ -1421,10 +1421,18 @@ io_write_buf(file_pair *pair, const uint8_t *buf, size_t size)
 			// is what bzip2 does too. If we get SIGPIPE, we
 			// will handle it like other signals by setting
 			// user_abort, and get EPIPE here.
+			//
+			// If SIGPIPE was ignored when xz was started, we
+			// don't have a signal handler for it and thus xz
+			// won't be terminated by re-raising the signal.
+			// The exit status still has to indicate an error
+			// because writing the output failed.
 			if (errno != EPIPE)
 				message_error(_("%s: Write error: %s"),
 					tuklib_mask_nonprint(pair->dest_name),
 					strerror(errno));
+			else
+				set_exit_status(E_ERROR);
 
 			return true;
 		}
